@@ -187,6 +187,56 @@ def summarise(ctx, qn, policy=default_policy, oracle=None, args=None, self_term=
     return ps
 
 
+def memo_tables(ctx, fn, ps):
+    """Hand-rolled memoisation inside fn (paths ps): a dict field M of self with  hit: `K in self.M` -> return self.M[K]   miss: self.M[K] = V ; return V.
+    -> {M: ('sound', K) | ('unsound', K, missing parameters) | ('other', reason)}.  Sound means: the stored value depends on parameters of fn only through
+    the key (and on state nobody writes after construction), so that answering from the table equals recomputing."""
+    out = {}
+    params = [p_ for p_ in fn.params if p_ not in ('self', 'cls')]
+    writes = {}
+    for i, p in enumerate(ps):
+        for w in heap_writes(p):
+            if w.loc[0] == 'sub' and w.loc[1][0] == 'attr' and w.loc[1][1] == V('self') and w.how == 'assign':
+                writes.setdefault(w.loc[1][2], []).append((i, w))
+    for m, ws in writes.items():
+        table = ('attr', V('self'), m)
+        inplace = [w for p in ps for w in heap_writes(p) if w.loc[0] in ('sub', 'attr') and any(s_ == table for s_ in T.subterms(w.loc[1]))
+                   and not (w.loc[0] == 'sub' and w.loc[1] == table)]
+        if inplace:
+            out[m] = ('other', 'entries are updated in place (a cursor, not a memo)')
+            continue
+        keys = {w.loc[2] for _, w in ws}
+        if len(keys) != 1:
+            out[m] = ('other', 'several key shapes')
+            continue
+        K = next(iter(keys))
+        kparams = {s_[1] for s_ in T.subterms(K) if s_[0] == 'var'}
+        verdict = None
+        for i, w in ws:
+            p = ps[i]
+            deps = {s_[1] for s_ in T.subterms(w.value) if s_[0] == 'var' and s_[1] in params}
+            for c, v_, _ in p.conds:
+                if c[0] == 'cmp' and c[1] == 'in' and c[3] == table:
+                    continue
+                deps |= {s_[1] for s_ in T.subterms(c) if s_[0] == 'var' and s_[1] in params}
+            missing = sorted(deps - kparams)
+            fields = {s_[2] for s_ in T.subterms(w.value) if s_[0] == 'attr' and s_[1] == V('self') and s_[2] != m}
+            mutable = sorted(f_ for f_ in fields if fn.cls is not None and ctx.M.field_written_outside_init(fn.cls, f_))
+            if missing:
+                verdict = ('unsound', K, missing)
+                break
+            if mutable:
+                verdict = ('other', 'the stored value reads %s, which is rewritten after construction' % mutable)
+                break
+        if verdict is None:
+            # hit paths: a membership test on the same key, the table entry returned, nothing written
+            hits = [p for p in ps if any(c[0] == 'cmp' and c[1] == 'in' and c[3] == table and v_ for c, v_, _ in p.conds)]
+            bad = [p for p in hits if p.outcome == 'return' and any(s_[0] == 'sub' and s_[1] == table and s_[2] != K for s_ in T.subterms(p.value or T.ZERO))]
+            verdict = ('other', 'a hit reads the table under another key') if bad else ('sound', K)
+        out[m] = verdict
+    return out
+
+
 def fresh_object_summaries(ctx, cname, meth, policy=default_policy, oracle=None):
     """Summaries of <cname>.<meth> run on an object that <cname>.__init__ has just built from symbolic arguments: what the method computes in terms of the
     CONSTRUCTOR ARGUMENTS, whatever fields, tables or properties the class uses internally to remember them.  -> (init path, method paths)"""
